@@ -61,7 +61,7 @@ package keeper
 // C18 (import acceptance): relayer genesis import panics unless every exported voter record passes (*Voter).Validate, i.e.
 // carries a 96-byte BLS vote key; every record written here must therefore have one, unless it keeps the key of the record it replaces.
 //@ func (Keeper).ProcessRelayerRequest
-//@ property C16 C09 C19 C18
+//@ property C16 C09 C19 C18 C01
 //@ writesite relayer.Voters [C18] importable: (has(st.relayer.Voters, key) && st.relayer.Voters[key].VoteKey == val.VoteKey) || len(val.VoteKey) == goatcrypto.PubkeyLength
 //@ let ACT = types.VOTER_STATUS_ACTIVATED
 //@ let OFF = types.VOTER_STATUS_OFF_BOARDING
@@ -119,7 +119,7 @@ package keeper
 // DOC  = the registration sign-doc: VoteSignDoc("Relayer/NewVoter", chain id, proposer, 0, current epoch,
 //        le64(height of the pending record) ++ hash160(tx key) ++ stored vote-key hash)
 //@ func (msgServer).NewVoter
-//@ property C16
+//@ property C16 C01
 //@ let ADDR = hash160(req.VoterTxKey)
 //@ let A = addrEncode(hash160(req.VoterTxKey))
 //@ let REC = old(st.relayer.Voters[addrEncode(hash160(req.VoterTxKey))])
@@ -178,8 +178,10 @@ package keeper
 //   OFF_RECS  every OffBoarding entry has a record with status OFF_BOARDING (hence the two queues are disjoint)
 //   SURVIVOR  if the proposer is being removed, some voter is not: this is what `len(OffBoarding) <= len(Voters)` gives
 //             for a duplicate-free queue of members and a duplicate-free member list (pigeonhole; paper argument, see NOTES.md)
+// C01 rests on the group invariant these functions maintain (members pairwise distinct, queues emptied when applied):
+// a voter listed twice would count twice toward the threshold. They therefore belong to the C01 check as well.
 //@ func (Keeper).EndBlocker
-//@ property C16 C19
+//@ property C16 C19 C01
 //@ let ON = types.VOTER_STATUS_ON_BOARDING
 //@ let OFF = types.VOTER_STATUS_OFF_BOARDING
 //@ let ACT = types.VOTER_STATUS_ACTIVATED
